@@ -146,7 +146,7 @@ def parse_template(path):
                 rest = m.group(2)
                 # path ends at first opt token; opts are known keywords
                 toks = split_opts(rest)
-                optkw = ("sigsubst(", "bound(", "attr(", "ret(", "mono(", "nogenerics", "nowhere", "keepvis", "keepattrs", "desugar(",
+                optkw = ("addgenerics(", "sigsubst(", "bound(", "attr(", "ret(", "mono(", "nogenerics", "nowhere", "keepvis", "keepattrs", "desugar(",
                          "trusted", "rename(", "nobody", "novis")
                 ptoks, otoks = [], []
                 for t in toks:
@@ -329,6 +329,14 @@ def assemble_item(d, info, src, srcfile_label, log):
             sig_a, sig_b = it["sig"]
             m = re.search(rb"\bfn\s+(" + re.escape(it["name"].encode()) + rb")\b", src[sig_a:sig_b])
             add(sig_a + m.start(1), sig_a + m.end(1), d.optarg("rename"), "RENAME")
+        for o in d.opts:
+            if o.startswith("addgenerics("):
+                # generic parameters of the dropped impl header are moved onto the function (IMPL_HEADER rule)
+                if it.get("gparams") and it["gparams"]["params"]:
+                    raise Undecided(f"{d.path}: addgenerics on a function that already has generics")
+                sig_a, sig_b = it["sig"]
+                m_ = re.search(rb"\bfn\s+" + re.escape(it["name"].encode()) + rb"\b", src[sig_a:sig_b])
+                add(sig_a + m_.end(), sig_a + m_.end(), o[12:-1], "IMPL_HEADER")
         for o in d.opts:
             if o.startswith("sigsubst("):
                 # textual substitution inside the signature (associated types of a dropped trait header)
@@ -702,6 +710,7 @@ def assemble(unit_dir, mutate=None, canary=False):
 VERIF_FAIL_PATTERNS = [
     r"^(postcondition|precondition|invariant|decreases|loop ensures|loop invariant)\b.*not satisfied",
     r"^assertion failed",
+    r"^precondition not met",
     r"^possible (arithmetic underflow/overflow|division by zero|bit shift underflow/overflow)",
     r"^(unreachable|panic)",
     r"^could not (prove|show) termination",
